@@ -248,6 +248,9 @@ let mres_of_token (t : string) : mres option =
   | _ -> failwith ("mres " ^ t)
 let mres_req t = match mres_of_token t with Some r -> r | None -> failwith "mres -"
 
+let ln10_tab : (z * z) list ref = ref []
+let invln10_tab : (z * z) list ref = ref []
+
 let judge_line (line : string) =
   incr total;
   let lhs, rhs = split_arrow line in
@@ -337,6 +340,24 @@ let judge_line (line : string) =
       let k = mkCase ORound c xd xd Z0 ANone xd in
       report line (corr_exp (z_of_dec_string cp) (z_of_dec_string n) c xd o
                    @ (if is_finite o.o_dec && err_eqb_none o then oracle_c07 k o else []))
+  | ["kt"; name; i; co; e], [] | ["kt"; name; i; co; e], [_] ->
+      (* an entry of the rounded-constant tables of the running package (inputs of the Ln model) *)
+      let tab = if name = "ln10" then ln10_tab else invln10_tab in
+      let idx = int_of_string i in
+      if idx = List.length !tab then tab := !tab @ [(z_of_big_dec co, z_of_dec_string e)]
+      else if idx < List.length !tab then () else report line [z_of_int 99]
+  | ["lm"; opn; p; emax; emin; traps; rnd; x], [d; cnd; er] ->
+      let c = mkCtx (z_of_dec_string p) (z_of_dec_string emax) (z_of_dec_string emin)
+                (cond_of_Z (z_of_dec_string traps)) (rounder_of_token rnd) in
+      let craw = z_of_dec_string cnd in
+      let o = mkObs (dec_req d) (cond_of_Z craw) craw (err_of_token er) Z0 None None true in
+      let xd = dec_req x in
+      let lg = (opn = "Log10") in
+      if ln_modelled !ln10_tab !invln10_tab lg c xd then begin
+        bump opcount (opn ^ "SeriesModel"); Hashtbl.replace nontrivial (String.concat " " lhs) () end
+      else bump opcount (opn ^ "HalleyNotModelled");
+      let k = mkCase ORound c xd xd Z0 ANone xd in
+      report line (corr_ln !ln10_tab !invln10_tab lg c xd o @ (if is_finite o.o_dec && err_eqb_none o then oracle_c07 k o else []))
   | ["gs"; _; _], [v] -> bump opcount "GlobalsSnapshot"; report line (if v = "1" then [] else [z_of_int 89])
   | ["gn"; b], [g; o] ->
       bump opcount "NumDigitsGlobals"; Hashtbl.replace nontrivial b ();
